@@ -327,6 +327,9 @@ def make_case(rng, cid, d, s, loss, ov, ps_kind, cutoff_kind="auto", ps_steps=No
             build = {"kind": "lossy_interferometer", "T": jm(T)}
         else:
             build = {"kind": "svd", "W": jm(W), "V": jm(V), "tau": [str(t) for t, _ in tau]}
+            # the runner issues pq.Loss only for tau != 1: with every tau = 1 (possible for
+            # d = 1) no instruction sets is_lossy
+            lossy_flag = any(t != 1 for t, _ in tau)
     # overlap
     ovj = None
     gram = None
@@ -638,17 +641,17 @@ def run(chk: Check):
                 combos.append((d, s, loss, ("gram", True)))
     rng.shuffle(combos)
     if Tq:
-        # thorough: every input with every loss kind, the overlap cycling through all values,
-        # plus every (input, overlap) with one loss kind, plus the Gram-matrix cases
-        picked, i = [], 0
-        for c in sorted(combos, key=lambda c: (c[0], c[1], c[2], str(c[3]))):
-            if isinstance(c[3], tuple):
-                if c[2] != "uniform" or sum(c[1]) <= 2:
-                    picked.append(c)
-                continue
-            i += 1
-            if i % 4 == overlaps.index(c[3]) or (c[2] == "nonuniform" and c[3] == "1/3"):
-                picked.append(c)
+        # thorough: every input (n <= 4, d <= 4, bunched included) with every loss kind, the
+        # overlap cycling through None / 0 / 1/3 / 1; one Gram-matrix case per 2-3 photon input
+        picked, i, j = [], 0, 0
+        for (d, s) in inputs:
+            for loss in ("none", "uniform", "nonuniform"):
+                picked.append((d, s, loss, overlaps[i % 4]))
+                i += 1
+            i += 1  # shift the cycle from input to input
+            if 2 <= sum(s) <= 3:
+                picked.append((d, s, ("none", "uniform", "nonuniform")[j % 3], ("gram", j % 2 == 1)))
+                j += 1
         combos = picked
     else:
         # quick: a stratified sample -- every (loss kind, overlap kind) pair once, sizes
@@ -680,7 +683,9 @@ def run(chk: Check):
     for d, s in ((2, [1, 1]), (3, [1, 1, 1]), (3, [2, 0, 1]), (4, [1, 1, 0, 1]), (4, [0, 2, 1, 0])):
         for (modes, counts) in ps_patterns(d, sum(s)):
             pats.append((d, s, modes, counts))
-    if not Tq:
+    if Tq:
+        pats = [p_ for p_ in pats if p_[0] <= 3] + rng.sample([p_ for p_ in pats if p_[0] > 3], 40)
+    else:
         pats = rng.sample(pats, 6)
     for (d, s, modes, counts) in pats:
         # one step with all modes, or split into two successive steps (active renumbering)
@@ -783,6 +788,8 @@ def run(chk: Check):
         if n_corpus <= m["id"] < n_corpus + n_feature and 1 <= sum(m["s"]) and (Tq or len(dil_reqs) < 5):
             if m["loss"] != "none" and 2 * m["d"] > (8 if Tq else 6):
                 continue
+            if Tq and m["id"] % 5 != 0:
+                continue
             dil_reqs.append({"id": len(dil_reqs), "U": jm(dilation_unitary(m)), "s": m["s"]})
             dil_meta.append(m)
     book = make_book(rng, Tq)
@@ -881,15 +888,13 @@ Eval vm_compute in mismatches (fun '(s, x, r) => close (input_norm Q 0%%Q 1%%Q q
     # every coqc process pays a fixed start-up / library-loading cost, so the quick tier uses
     # three balanced cases files (+ one file for the dilation and bookkeeping comparisons)
     bodies, groups = [], []
-    if Tq:
-        chunk = 6
-        parts = [usable[i:i + chunk] for i in range(0, len(usable), chunk)]
-    else:
-        def cost(mr):
-            m = mr[0]
-            return len(m["queries"]) * (3 if m["lossy_flag"] else 1) * (1 if m["ov"] is None else 3) * (1 + sum(m["s"]))
-        parts = [[] for _ in range(3)]
-        load = [0, 0, 0]
+    def cost(mr):
+        m = mr[0]
+        return len(m["queries"]) * (3 if m["lossy_flag"] else 1) * (1 if m["ov"] is None else 3) * (1 + sum(m["s"]))
+    if True:
+        nbins = max(4, (len(usable) + 11) // 12) if Tq else 3
+        parts = [[] for _ in range(nbins)]
+        load = [0] * nbins
         for mr in sorted(usable, key=cost, reverse=True):
             i = load.index(min(load))
             parts[i].append(mr)
